@@ -4,7 +4,7 @@
     correspondence check on every run). *)
 From QV Require Import Lib.Tac Lib.Bytes Lib.Corr Model.Varint Model.PacketNumber Model.Frames
   Proofs.VarintProofs Proofs.PnProofs Proofs.FramesProofs Proofs.FramesTotal Proofs.FramesIter.
-From QV Require Model.Header Proofs.HeaderProofs.
+From QV Require Model.Header Proofs.HeaderProofs Proofs.FramesRanges gen.Constants.
 Open Scope Z_scope.
 
 (** Every encodable value round-trips, with arbitrary trailing bytes left untouched. *)
@@ -101,14 +101,35 @@ Print Assumptions C10_ack_ranges_roundtrip.
 
 (** [Close::encode(max_len)]: when [max_len] covers the bytes the encoder reserves
     ([close_fits]; otherwise the Rust subtraction underflows) the frame round-trips with its
-    reason cut to a prefix of length [n]. *)
+    reason cut to a prefix of length [n], and the encoded frame never exceeds [max_len].
+    (The last conjunct was false of the code as found: the encoder reserved 3 bytes for type and
+    error code whatever the size of the code; replayed on a real connection — a 1458-byte datagram
+    on a 1452-byte path — and repaired by the [fix:] commit; the model follows the repaired code.) *)
 Theorem C10_close_roundtrip : forall withlen max_len f,
   wf_frame f = true -> is_close f = true -> close_fits max_len (DFrame f) = true ->
   exists b n, encode_frame withlen max_len f = Some b /\
     0 <= n <= zlen (close_reason f) /\
-    (forall r, try_next (b ++ r) = DOk (truncate_close n f) r).
+    (forall r, try_next (b ++ r) = DOk (truncate_close n f) r) /\
+    zlen b <= max_len.
 Proof. exact close_roundtrip. Qed.
 Print Assumptions C10_close_roundtrip.
+
+(** Nothing is cut when there is room for the whole reason. *)
+Theorem C10_close_reason_intact : forall max_len extra len sl,
+  Varint.size len = Some sl -> 0 <= len -> 0 <= extra -> 0 <= sl ->
+  1 + extra + sl + len <= max_len ->
+  close_reason_len max_len extra len = Some len.
+Proof. exact close_reason_intact. Qed.
+Print Assumptions C10_close_reason_intact.
+
+(** [wf_ranges] is what every non-empty ascending, separated range list below 2^62 — the content
+    of an [ArrayRangeSet] — satisfies. *)
+Theorem C10_sorted_ranges_wf : forall rs,
+  rs <> [] -> sorted_asc 0 rs = true ->
+  (forall s e, hd_error (rev rs) = Some (s, e) -> e <= 2 ^ 62) ->
+  wf_ranges rs = true.
+Proof. exact FramesRanges.sorted_asc_wf_ranges. Qed.
+Print Assumptions C10_sorted_ranges_wf.
 
 (** Whole payloads: [Iter] over the concatenated encodings returns exactly the frames. *)
 Theorem C10_frames_payload_roundtrip : forall max_len fs,
@@ -166,9 +187,10 @@ Example C10_ack_example :
   ack_ranges 14 [0; 1; 1; 3; 0; 0; 2] = AOk [(14, 14); (10, 11); (5, 5); (1, 3)].
 Proof. vm_compute. repeat split. Qed.
 Example C10_close_example :
-  encode_frame true 10 (CloseApp 7 [65; 66; 67; 68; 69; 70; 71; 72]) = Some [29; 7; 6; 65; 66; 67; 68; 69; 70] /\
-  try_next [29; 7; 6; 65; 66; 67; 68; 69; 70; 1] = DOk (CloseApp 7 [65; 66; 67; 68; 69; 70]) [1].
-Proof. vm_compute. split; reflexivity. Qed.
+  encode_frame true 10 (CloseApp 7 [65; 66; 67; 68; 69; 70; 71; 72]) = Some [29; 7; 7; 65; 66; 67; 68; 69; 70; 71] /\
+  try_next [29; 7; 7; 65; 66; 67; 68; 69; 70; 71; 1] = DOk (CloseApp 7 [65; 66; 67; 68; 69; 70; 71]) [1] /\
+  encode_frame true 10 (CloseApp 16384 [65; 66; 67; 68; 69; 70; 71; 72]) = Some [29; 128; 0; 64; 0; 4; 65; 66; 67; 68].
+Proof. vm_compute. repeat split; reflexivity. Qed.
 Example C10_decode_error_example :
   decode_out [1; 2; 5; 0; 0; 9] = Some [0; 1; -1; 3; 2] /\ decode_out [] = Some [1].
 Proof. vm_compute. split; reflexivity. Qed.
@@ -213,3 +235,15 @@ Example C10_header_example :
     ([192; 0; 0; 0; 1; 8; 6; 184; 88; 236; 111; 128; 69; 43; 0; 0; 64; 4; 0; 9; 9; 9] ++ [77; 1; 2; 3; 4; 5; 6; 7; 8; 0; 1; 2; 3]) =
     Header.DOk 22 13 4 19 3 true (Header.HInitial 1 [6; 184; 88; 236; 111; 128; 69; 43] [] [] 1 0).
 Proof. vm_compute. repeat split. Qed.
+
+(** Connection IDs in long-header form ([ConnectionId::encode_long] / [decode_long]). *)
+Theorem C10_cid_roundtrip : forall c x,
+  zlen c <= Header.MAX_CID -> Header.decode_long (Header.cid_long c ++ x) = Some (c, x).
+Proof. exact HeaderProofs.decode_long_cid. Qed.
+Print Assumptions C10_cid_roundtrip.
+
+(** The constants the models use are the ones of the compiled crate. *)
+Example C10_constants :
+  Frames.MAX_CID_SIZE = Constants.MAX_CID_SIZE /\ Header.MAX_CID = Constants.MAX_CID_SIZE /\
+  Z.of_nat Frames.RESET_TOKEN_SIZE = Constants.RESET_TOKEN_SIZE.
+Proof. repeat split; reflexivity. Qed.
